@@ -24,7 +24,7 @@ txt = ("## 10. Seeded changes and the checks that catch them\n\n"
        "C13_1, C15_2, C16_2, C11_2, C08_1–3, C03_1 (first two batches), C18_3 (kMatrix/FOCUS now also generated on vector resonances), C19_2 (parameter arrays\n"
        "compared between languages and checked for index order), C19_3 (C19 now also converts generated option files with all supported spin structures and the\n"
        "parameter families they need), C17_1 (coupling-convention oracle), C06_1 (user names that are prefixes of published names up to a non-word character),\n"
-       "C06_3 (rejection by parse() separated from unreadable modes); third round: C09_4, C15_4, C17_4, C19_4, C01_4, C12_4, C20_4 (see §0). All 88 are now caught by\n"
+       "C06_3 (rejection by parse() separated from unreadable modes); third round: C09_4, C15_4, C17_4, C19_4, C01_4, C12_4, C20_4; fourth round: C01_6, C05_5, C16_5 (oracle crash), C16_6 (see §0). All 108 are now caught by\n"
        "the property's own quick check, each with a concrete failing input (`py/seedconfirm.py` is the script that confirmed each change in a scratch worktree).\n\n"
        "| change | what it breaks (first line of the author's notes) | caught by `./check <ID> --tier quick` as |\n|---|---|---|\n" + "\n".join(rows) + "\n")
 p = V / "DESIGN.md"
